@@ -62,6 +62,11 @@ Inductive outcome :=
 Definition DEBUG := 0.
 Definition BUILTINS := 1.
 
+(* the fragment whose evaluation is modelled: and/or trees over names *)
+Definition fragment_kinds : list string := ["Expression"; "Name"; "Load"; "BoolOp"; "And"; "Or"].
+Definition in_fragment (t : pyast) : bool :=
+  forallb (fun k => mem String.eqb k fragment_kinds) (preorder t).
+
 Section Eval.
   (* the supplied variables, and the truthiness (`__bool__`) of each object *)
   Variable env : nat -> option nat.
@@ -117,7 +122,10 @@ Section Eval.
     | Some t =>
         match first_bad wl t with
         | Some k => ([], Rejected k)
-        | None => py_eval t
+        | None =>
+            (* accepted: compile + eval.  Only trees inside the fragment are
+               modelled (others can already fail in compile(), e.g. `await`) *)
+            if in_fragment t then py_eval t else ([], Unsupported)
         end
     end.
 End Eval.
